@@ -60,6 +60,34 @@ PROPS = {
                      "monitors: the call returns (else: quiescent deadlock or storage-less spinning observed in consecutive goroutine profiles = violation, a bare watchdog = inconclusive), storage calls <= analytic bound, "
                      "after return + context release no goroutine with a keto check frame remains (stable stacks in consecutive profiles = leak); a child death on a journalled case is a violation; "
                      "non-trivial = query whose fault-free run returned; distinct by (case, query); cancel/fault positions are counted in the counters"),
+    "C04": dict(test="TestC04", level="exploration", runs=[("", "plain", 16)], timeout=(900, 5400), floor=(75000, 750),
+                rule="case = one generated history of 5..60 write-API operations (REST PUT / DELETE / PATCH /admin/relation-tuples, gRPC TransactRelationTuples, DeleteRelationTuples with relation_query and with the deprecated query) "
+                     "over a small universe with adversarial strings, duplicates, insert+delete of one tuple in one request, unknown namespaces, missing subjects, both subject kinds, executed on a real registry (REST routers, gRPC servers, SQLite) "
+                     "next to the multiset model (refstore); after EVERY step: lists of all 16 query shapes x {touched values, random universe values, unknown values} through REST and gRPC (random page size, pagination followed to the end), "
+                     "3 checks against the reference semantics and 2 expands against the expand oracle on the model's rows, table row count = model size; a request that was not accepted must leave the full database dump unchanged, "
+                     "invalid requests must be rejected, valid ones accepted; evaluation = one oracle decision (one listing, check, expand, dump or row-count comparison, one write verdict); "
+                     "non-trivial = a step whose accepted operation changed the model multiset; distinct by (case, step)",
+                assumptions=["requests carrying both subject_id and subject_set, null entries and ACTION_UNSPECIFIED deltas are not sent (outside the property / C13's inputs)",
+                             "a list query naming an unknown namespace may be answered 404 / NotFound; that is read as 'no match'",
+                             "checks whose run logged a depth/width cut are skipped and counted (max depth 64, width 1000: none observed)"]),
+    "C06": dict(test="TestC06", level="exploration", runs=[("", "plain", 16)], timeout=(900, 5400), floor=(92000, 660),
+                rule="case = one generated history in network A (as C04, plus the empty delete query, patches of 40..200 deltas) next to a fixed data set in network B over the SAME strings, on one database, "
+                     "run under 4 wirings: ctx (one registry, Contextualizer takes the network from the request context / gRPC metadata; REST, gRPC and handler-level calls), persisters (two sql.Persister with different nid, own traverser / mappers / engines), "
+                     "and both again below the string->UUID mapping (raw: Manager + engines with internal tuples whose UUIDs are identical in A and B, the only way to exercise nid predicates that the per-network UUIDv5 mapping shadows); "
+                     "after EVERY step of A: 32 lists (16 shapes x 2 value sets), 6 checks, 3 expands of B and B's part of the database dump (rows with nid=B + B's uuid mappings) equal their values before the history; "
+                     "A's lists / checks / expands equal the model of A (a surplus explained by B's rows is a leak); no row carries another nid, every uuid mapping is UUIDv5(A|B, string); "
+                     "evaluation = one oracle decision; non-trivial = a step whose accepted operation changed A's multiset while B holds rows over the same strings; distinct by (case, wiring, step)",
+                assumptions=["the gRPC transport of the ctx wiring conveys the network id as request metadata read by the Contextualizer (a server-side context cannot inherit client context values)",
+                             "the raw wirings bypass the Mapper, hence namespace validation; they judge Manager / traverser / engine isolation only"]),
+    "C07": dict(test="TestC07", level="exploration", runs=[("", "plain", 16)], timeout=(900, 5400), floor=(2900, 2000),
+                rule="families: iter (6 of 8 cases) = a stored multiset whose matches for one query of a random shape number m in {0,1,2,99,100,101,199,200,201,250}, plus non-matching and volatile rows; the query is listed to the end for every page size in "
+                     "{0,1,2,3,50,100,101,1000,m-1,m,m+1} through Manager.GetRelationTuples, REST and gRPC (rotating): concatenation = match multiset, |page| <= effective size, token empty exactly when nothing remains; then up to 4 sizes again while a writer "
+                     "(another transport) inserts and deletes other rows between page fetches: stable rows exactly once, volatile rows at most as often as they existed, nothing else; token (1 of 8) = truncated / non-UUID tokens must be client errors on all transports, "
+                     "other spellings of a token = same page or client error, a re-sent token = the same continuation, foreign UUIDs = client error or matches only, negative / non-numeric sizes = client error, sizes up to MaxInt64 = one full page or client error; "
+                     "internal (1 of 8) = expand and tuple-to-subject-set check over up to 250 children through keto's ManagerWrapper forcing page sizes 1..3 and through REST / gRPC, subject-set expansion over 999..2001 subject sets (the traverser's own paging); "
+                     "evaluation = one complete listing, one token / size probe, one internal expand or check; non-trivial = a listing that needed >= 2 pages, a token probe, or an internal consumer run over more than one page",
+                assumptions=["tokens are treated as opaque except that the token issued after row i of an iteration, sent again with the same query and size on an unchanged store, must give the same continuation",
+                             "the writer runs between page fetches (deterministic interleaving), not concurrently with a page query"]),
     "C16": dict(test="TestC16", level="exploration", runs=[("", "plain", 16)], timeout=(900, 5400), floor=(25000, 600),
                 rule="case = one generated batch of 1..350 API tuples over a pool of adversarial names (modes distinct / repeat-heavy / obj-eq-subj / mixed / page-edge / adversarial-small), "
                      "run through the real Mapper + SQLite persister (FromTuple/ToTuple/FromQuery/ToQuery/FromSubjectSet/ToTree, MapStringsToUUIDs[ReadOnly], MapUUIDsToStrings) and, for the valid-UTF-8 tuples, "
